@@ -193,6 +193,18 @@ func (d *Document) AddListItem(text string, config *ListConfig) *Paragraph {
 		}
 	}
 
+	// 编号定义只有 0-8 共9个级别：超出范围的缩进级别收敛到最近的有效级别，
+	// 否则列表项会引用一个不存在的级别定义
+	if config.IndentLevel < 0 || config.IndentLevel > 8 {
+		clamped := *config
+		if clamped.IndentLevel < 0 {
+			clamped.IndentLevel = 0
+		} else {
+			clamped.IndentLevel = 8
+		}
+		config = &clamped
+	}
+
 	// 确保编号管理器已初始化（先取得管理器，它需要看到文档原有的编号部件）
 	d.getNumberingManager()
 	d.ensureNumberingInitialized()
